@@ -130,6 +130,28 @@ impl World {
         None
     }
 
+    /// Number of entries the step list of the operator instantiated from `def` has
+    /// (a macro is its body; a single operator is one step)
+    pub fn step_count(&self, c: usize, def: &str, depth: usize) -> Option<usize> {
+        if depth > 100 {
+            return None;
+        }
+        let clean: String = def.lines().map(|l| l.split('#').next().unwrap_or("")).collect::<Vec<_>>().join(" ");
+        let steps: Vec<&str> = clean.split('|').map(|s| s.trim()).filter(|s| !s.is_empty()).collect();
+        if steps.len() != 1 {
+            return Some(steps.len());
+        }
+        let name = steps[0].split_whitespace().next()?;
+        if name.contains(':') {
+            let text = self.macro_text(c, name)?;
+            if text.starts_with('\u{1}') {
+                return Some(1);
+            }
+            return self.step_count(c, &text, depth + 1);
+        }
+        Some(1)
+    }
+
     /// Instantiate `def` in context `c`: the operator's value, or None for an error
     pub fn eval(&mut self, c: usize, def: &str, depth: usize) -> Option<Val> {
         if depth > 100 {
